@@ -762,8 +762,18 @@ public:
       dom_var_alloc_t palloc(left._alloc, right._alloc);
 
       // Build up the mapping of right onto left, variable by variable.
-      // Assumption: the set of variables in left & right are common.
       for (auto p : left._var_map) {
+        if (!left._ttbl.map_leq(right._ttbl, left.term_of_var(p.first),
+                                right.term_of_var(p.first), gen_map))
+          return false;
+      }
+      // The variables constrained only by right must be mapped as
+      // well (they are unconstrained in left: term_of_var gives them
+      // a fresh term). Otherwise, right's constraints on them are
+      // ignored, e.g., top <= {x=1} would hold.
+      for (auto p : o._var_map) {
+        if (left._var_map.find(p.first) != left._var_map.end())
+          continue;
         if (!left._ttbl.map_leq(right._ttbl, left.term_of_var(p.first),
                                 right.term_of_var(p.first), gen_map))
           return false;
